@@ -263,6 +263,13 @@ def run(ctx):
     else:
         fails = vlib.proof_step(ctx, "TG.Props.C15", THEOREMS, ["props/C15.vo"], TRUSTED,
                                 translators=["t_tokens", "t_lextables", "t_unicode", "t_lexer", "t_prep"])
+        # a translator that refuses the source leaves its previous output in coq/gen: theorems about that output are
+        # NOT established for the current tree, whatever coqc says about the stale file
+        tr_failed = {f["translator"] for f in fails if f.get("kind") == "translator"}
+        if tr_failed:
+            stale = set(THEOREMS) if tr_failed - {"t_lexer", "t_prep"} else {t for t in THEOREMS if t.endswith("_is_source")}
+            ctx.cov["stale_generated_input"] = {"translators_failed": sorted(tr_failed), "theorems_not_established": sorted(stale)}
+            ctx.cov["discharged"] = max(0, ctx.cov.get("discharged", 0) - len([t for t in stale if ctx.cov.get("axioms_per_theorem", {}).get(t) == []]))
         cone = P.coq_cone("props/C15.v")
         ctx.cov["coq_cone"] = sorted(cone)
         fails = [f for f in fails if not (f.get("kind") == "forbidden-declaration"
